@@ -3,6 +3,7 @@ import GormModel.Model.Bind
 import GormModel.Model.BindSpec
 import GormModel.Model.BindJoin
 import GormModel.Model.BindApi
+import GormModel.Model.BindStr
 open Lean
 open Gorm.Bind
 namespace Gorm.Drv
@@ -125,7 +126,10 @@ open HC01 in
     ["bind.join", dialect, pre, [refs], [on], [outer]]  → {…} of `render d (joinStmt d pre refs on outer)`   (relation join: private ON statement re-templated and re-bound)
     ["bind.dispatch", dialect, kind, sql, [args]]      → "fallthrough" | {…}   kind = raw | exec | rawjoin | select  (Expr vs NamedExpr decision of the entry point)
     ["bind.table", dialect, name, [args]]              → {form: expr|qualified|plain|empty, render: {…}|null, binds: [vals], table: Statement.Table | null (outside the model)}   (`(*DB).Table(name, args...)`: Gorm.Bind.tableForm / tableDispatch / tableBinds)
-    ["bind.wf", val]                                   → bool (decidable well-formedness, Model side) -/
+    ["bind.wf", val]                                   → bool (decidable well-formedness, Model side)
+    ["bind.atoi", s]                                   → decimal string of the value | null   (Gorm.Bind.atoi = strconv.Atoi; null = error)
+    ["bind.cond2", dialect, pkcol, query, [args]]      → {key: bool, out: "fallthrough" | {…}}   (Gorm.Bind.buildCond: COMPLETE string arm of
+                                                          BuildCondition, numeric-ness decided by the model; the string payload is "s:"+query) -/
 def handleC01 (op : String) (args : Array Json) : Option Json := do
   match op with
   | "bind.render" =>
@@ -140,6 +144,20 @@ def handleC01 (op : String) (args : Array Json) : Option Json := do
     match buildCondStr isNum q as with
     | none => some (Json.str "fallthrough")
     | some es => some (renderJ d (.whereC es))
+  | "bind.atoi" =>
+    let q ← chars? (arg args 1)
+    match atoi q with
+    | some n => some (Json.str (toString n))
+    | none => some Json.null
+  | "bind.cond2" =>
+    let d ← parseDialect (arg args 1)
+    let pk ← parseVal (arg args 2)
+    let q ← chars? (arg args 3)
+    let as ← (← jArr? (arg args 4)).toList.mapM parseVal
+    let out := match buildCond (fun s => "s:" ++ String.ofList s) pk q as with
+      | none => Json.str "fallthrough"
+      | some es => renderJ d (.whereC es)
+    some (Json.mkObj [("key", Json.bool (isKeyString q)), ("out", out)])
   | "bind.join" =>
     let d ← parseDialect (arg args 1)
     let pre ← parseVal (arg args 2)
